@@ -73,7 +73,7 @@ func allHosts(maxLen int) []string {
 	return out
 }
 
-var structured = []string{"", "a.b:80", "a.b.", "a.b.:80", "a.b..", "b.a.b:8080", "x.b", "a.x", "1.2.3.4", "1.2.3.4:80", "[::1]:80", "[::1]", "::1", "a.b:", "a.b:x", ":80", "A.B", "a.b:80:80", "b.a.b.", "ab.b:1", ".", "..", "a.b-c", "a.b.c", "a.b-", "a.b-c:80", "a.b.c."}
+var structured = []string{"", "a.b:80", "a.b.", "a.b.:80", "a.b..", "b.a.b:8080", "x.b", "a.x", "1.2.3.4", "1.2.3.4:80", "[::1]:80", "[::1]", "::1", "a.b:", "a.b:x", ":80", "A.B", "a.b:80:80", "b.a.b.", "ab.b:1", ".", "..", "a.b-c", "a.b.c", "a.b-", "a.b-c:80", "a.b.c.", "{x}.b", "{h}.b", "{.b", "a.{t}", "a.{", "a{m}.b", "a{.b", "{h}.{t}", "}.b", "{x}.b:80"}
 
 func patterns() []string {
 	var pats []string
